@@ -68,6 +68,7 @@ class LP_Solver:
         """
 
         self.info_string = ''
+        self.solve_performed = False
         self.solver = pulp.PULP_CBC_CMD(
             msg=msg, 
             timeLimit=timeLimit, 
@@ -80,7 +81,9 @@ class LP_Solver:
 
         self.run_optimisations(self.optimisation_options)
 
-        if len(self.optimisation_options) == 0:
+        # Plain solve if no optimisation solved the model (no optimisations 
+        # requested, or none of them had anything to optimise).
+        if not self.solve_performed:
             self.prob.solve(self.solver)
 
         self.model.info_string = self.info_string
@@ -512,11 +515,13 @@ class LP_Solver:
         if optimisation_type == Optimisation_type.MAXIMISE:
             self.prob.objective = objective_function
             self.prob.solve(self.solver)
+            self.solve_performed = True
             # add the constraint
             self.prob += objective_function >= objective_function.varValue
 
         elif optimisation_type == Optimisation_type.MINIMISE:
             self.prob.objective = -1 * objective_function
             self.prob.solve(self.solver)
+            self.solve_performed = True
             # add the constraint
             self.prob += objective_function <= objective_function.varValue
